@@ -7,7 +7,7 @@
    This file holds only the property theorems (each closed by [exact] of a lemma of
    proofs/RefEval_proofs.v), non-vacuity examples and [Print Assumptions]. *)
 From Coq Require Import List ZArith NArith Bool.
-From GrolGen Require Import Gen_Consts.
+From GrolGen Require Import Gen_Consts Gen_Prec.
 From GrolModel Require Import Ast RefValues RefEval.
 From GrolProofs Require Import RefEval_proofs.
 Import ListNotations.
@@ -108,6 +108,13 @@ Theorem C01_assign_creates_local : forall (n : bytes) (v : value) (st : state),
   create_or_set n v false st = (OVal v, set_define st n v).
 Proof. exact assign_creates_local. Qed.
 
+(* the precedence table the translator read from /repo on this run is, for every token type, the documented
+   table the reference was written against, and the binding levels are strictly ordered (weakest first) *)
+Theorem C01_prec_table_is_reference :
+  (forall t : Z, prec_lookup Gen_Prec.precedences t = prec_lookup ref_prec t)
+  /\ strictly_increasing ref_levels = true.
+Proof. exact (conj prec_table_is_reference (proj2 prec_table_frozen)). Qed.
+
 (* ---- non-vacuity: the hypotheses are satisfiable and the evaluator computes ---- *)
 Definition tI (z : Z) : node := NInt (mkTok token_INT []) z.
 Definition tB (b : bool) : node := NBool (mkTok (if b then token_TRUE else token_FALSE) []) b.
@@ -158,3 +165,4 @@ Print Assumptions C01_shortcircuit_or.
 Print Assumptions C01_define_is_local.
 Print Assumptions C01_assign_through.
 Print Assumptions C01_assign_creates_local.
+Print Assumptions C01_prec_table_is_reference.
